@@ -17,6 +17,7 @@ mod cmd_formats;
 mod cmd_partial;
 mod cmd_pset;
 mod cmd_batched;
+mod cmd_valeval;
 
 /// Command families.  To add one: create src/cmd_xxx.rs with
 /// `pub fn dispatch(cmd: &str, v: &J) -> Option<Result<J, String>>`, add `mod cmd_xxx;` above
@@ -33,6 +34,7 @@ const FAMILIES: &[fn(&str, &J) -> Option<Result<J, String>>] = &[
     cmd_partial::dispatch,
     cmd_pset::dispatch,
     cmd_batched::dispatch,
+    cmd_valeval::dispatch,
 ];
 
 fn dispatch(cmd: &str, v: &J) -> Result<J, String> {
